@@ -545,10 +545,16 @@ def _root_equal(r1, r2, assumptions, fuel):
         return True
     if not (isinstance(r1, tuple) and isinstance(r2, tuple) and r1 and r2 and r1[0] == r2[0] and len(r1) == len(r2)) or r1[0] in SPLITTABLE:
         return False
-    return all(terms_equal(x, y, assumptions, fuel) if isinstance(x, tuple) and isinstance(y, tuple) else x == y for x, y in zip(r1, r2))
+    return all(_terms_equal(x, y, assumptions, fuel) if isinstance(x, tuple) and isinstance(y, tuple) else x == y for x, y in zip(r1, r2))
 
 
 def terms_equal(t1, t2, assumptions=(), fuel=5):
+    """(see _terms_equal) -- terms in canonical print form (single roots written bare) are first rewritten with linear
+    operands, the form the arithmetic lemmas are stated over"""
+    return _terms_equal(T.substitute(t1, {}), T.substitute(t2, {}), [T.as_lin(T.substitute(a, {})) for a in assumptions], fuel)
+
+
+def _terms_equal(t1, t2, assumptions=(), fuel=5):
     """t1 and t2 denote the same value for every valuation of their roots (roots are non-negative integers): identical, or
     identical up to sub-terms that are piecewise linear and provably equal case by case.  The comparison descends through
     equal constructors; where the two differ, opaque boolean atoms (pattern tests, pointer comparisons) are decided by
@@ -561,7 +567,7 @@ def terms_equal(t1, t2, assumptions=(), fuel=5):
     numeric1 = T.is_lin(t1) or (isinstance(u1, tuple) and u1 and u1[0] in SPLITTABLE)
     numeric2 = T.is_lin(t2) or (isinstance(u2, tuple) and u2 and u2[0] in SPLITTABLE)
     if not (numeric1 or numeric2) and isinstance(u1, tuple) and isinstance(u2, tuple) and len(u1) == len(u2) and u1 and u1[0] == u2[0]:
-        return all(terms_equal(x, y, assumptions, fuel) if isinstance(x, tuple) and isinstance(y, tuple) else x == y for x, y in zip(u1, u2))
+        return all(_terms_equal(x, y, assumptions, fuel) if isinstance(x, tuple) and isinstance(y, tuple) else x == y for x, y in zip(u1, u2))
     if not (numeric1 or numeric2):
         return False
     if T.is_bool(u1) or T.is_bool(u2):
@@ -572,7 +578,7 @@ def terms_equal(t1, t2, assumptions=(), fuel=5):
         atoms = [a for a in atoms if not any(b != a and any(y == b for y in T.subterms(a)) for b in atoms)] or atoms
         if atoms:
             a = atoms[0]
-            return all(terms_equal(T.substitute(t1, {a: v}), T.substitute(t2, {a: v}), assumptions, fuel - 1) for v in (T.TRUE, T.FALSE))
+            return all(_terms_equal(T.substitute(t1, {a: v}), T.substitute(t2, {a: v}), assumptions, fuel - 1) for v in (T.TRUE, T.FALSE))
     c1, c2 = cases_of([((), T.as_lin(t1))]), cases_of([((), T.as_lin(t2))])
     if c1 is not None and c2 is not None:
         try:
